@@ -260,7 +260,8 @@ Qed.
 Theorem lstep_inv w o : Inv w -> wf_op o -> no_close o = true ->
   Inv (snd (lstep w o)) /\ fst (lstep w o) <> RaisePty 1.
 Proof.
-  intros HI Hwf Hnc. destruct o as [| |sig|force|force|e]; cbn [lstep wf_op] in *; try discriminate.
+  intros HI Hwf Hnc. destruct o as [| |sig|force|force|e|]; cbn [lstep wf_op] in *; try discriminate.
+  6: { unfold io. destruct (s_closed (sp w) || negb (s_fd_valid (sp w))); cbn [fst snd]; (split; [exact HI | discriminate]). }
   - pose proof (isalive_ok w HI) as C. destruct (isalive w) as [[[|]| | | |] w']; try contradiction; cbn [fst snd].
     + destruct C as (-> & _). split; [exact HI | discriminate].
     + split; [apply C | discriminate].
@@ -306,7 +307,8 @@ Proof.
   assert (R : forall w0, sp (copy_fields w) = sp w0 -> s_terminated (sp w0) = true /\ s_status (sp w0) = s_status (sp w) /\
                          s_exit (sp w0) = s_exit (sp w) /\ s_sig (sp w0) = s_sig (sp w)).
   { intros w0 <-. unfold copy_fields, set_sp; cbn. auto. }
-  destruct o as [| |sig|force|force|e]; cbn [lstep no_close] in *; try discriminate; cbv zeta.
+  destruct o as [| |sig|force|force|e|]; cbn [lstep no_close] in *; try discriminate; cbv zeta.
+  6: { unfold io. destruct (s_closed (sp w) || negb (s_fd_valid (sp w))); cbn [snd]; auto. }
   - rewrite Q. cbn [snd]. now apply R.
   - unfold wait. rewrite P. cbn [snd]. now apply R.
   - unfold kill, send_kill. rewrite Q. cbn [snd]. now apply R.
@@ -473,7 +475,7 @@ Qed.
 Theorem lstep_inv_all w o : Inv w -> wf_op o -> Inv (snd (lstep w o)) /\ fst (lstep w o) <> RaisePty 1.
 Proof.
   intros HI Hwf. destruct (no_close o) eqn:E; [now apply lstep_inv|].
-  destruct o as [| | | |force|]; try discriminate. cbn [lstep].
+  destruct o as [| | | |force| |]; try discriminate. cbn [lstep].
   pose proof (close_spec w force HI) as C. destruct (close w force) as [[| | |n|] w']; try contradiction; cbn [fst snd].
   - split; [apply C | discriminate].
   - destruct C as (-> & C & _). split; [exact C | discriminate].
@@ -544,10 +546,40 @@ Theorem status_stable_all w o : Inv w -> wf_op o -> s_terminated (sp w) = true -
   s_terminated (sp w') = true /\ s_status (sp w') = s_status (sp w) /\ s_exit (sp w') = s_exit (sp w) /\ s_sig (sp w') = s_sig (sp w).
 Proof.
   intros HI Hwf Hs. destruct (no_close o) eqn:E; [now apply status_stable|].
-  destruct o as [| | | |force|]; try discriminate. cbn [lstep]. cbv zeta.
+  destruct o as [| | | |force| |]; try discriminate. cbn [lstep]. cbv zeta.
   pose proof HI as (_ & _ & _ & I4 & _). destruct (I4 Hs) as (Ht & B1 & B2 & B3).
   unfold close, pty_close. destruct (t_closed (pt w)) eqn:Ec.
   - rewrite isalive_dead by exact Ht. cbn. auto.
   - cbv zeta. unfold pty_isalive at 1. cbn [set_ch pt t_terminated]. rewrite Ht.
     rewrite isalive_dead by reflexivity. cbn. auto.
+Qed.
+
+(** C10: after close() - successful or not - every I/O call on the object fails with an error and changes nothing *)
+Theorem io_after_close w force : Inv w ->
+  let w' := snd (close w force) in fst (io w') = RaisePty 3 /\ snd (io w') = w'.
+Proof.
+  intros HI. cbv zeta. pose proof (close_spec w force HI) as C. destruct (close w force) as [[| | |n|] w']; try contradiction; cbn [snd].
+  - destruct C as ((_ & _ & _ & Sc & _) & _). unfold io. rewrite Sc. cbn. auto.
+  - destruct C as (_ & _ & _ & Sf & _). unfold io. rewrite Sf. cbn. rewrite orb_true_r. auto.
+Qed.
+
+(** ... and keeps failing whatever is called afterwards: the descriptor number never becomes valid again *)
+Theorem fd_stays_invalid w o : Inv w -> wf_op o -> s_fd_valid (sp w) = false -> s_fd_valid (sp (snd (lstep w o))) = false.
+Proof.
+  intros HI Hwf Hf. destruct o as [| |sig|force|force|e|]; cbn [lstep].
+  - pose proof (isalive_spec w HI) as P. destruct (isalive w) as [[[|]| | | |] w']; try contradiction; cbn [snd].
+    + now destruct P as (-> & _).
+    + destruct P as (_ & _ & _ & _ & _ & _ & _ & _ & _ & _ & P). congruence.
+  - unfold wait. pose proof (pty_isalive_spec w HI) as P. destruct (pty_isalive w) as [[[|]| | | |] w']; try contradiction; cbn [snd].
+    + now destruct P as (-> & _).
+    + destruct P as (_ & _ & P & _). unfold copy_fields, set_sp; cbn. congruence.
+  - pose proof (send_kill_spec isalive isalive_ok w sig HI Hwf) as K. unfold kill.
+    destruct (send_kill isalive w sig) as [[| | | |] w']; try contradiction. cbn [snd]. destruct K as (_ & (_ & _ & _ & _ & K) & _). congruence.
+  - pose proof (terminate_ok w force HI) as T. unfold terminate.
+    destruct (terminate_with isalive w force) as [[[|]| | | |] w']; try contradiction; cbn [snd]; destruct T as (_ & (_ & _ & _ & _ & T) & _); congruence.
+  - pose proof (close_spec w force HI) as C. destruct (close w force) as [[| | |n|] w']; try contradiction; cbn [snd].
+    + apply C.
+    + apply C.
+  - cbn. exact Hf.
+  - unfold io. destruct (s_closed (sp w) || negb (s_fd_valid (sp w))); exact Hf.
 Qed.
